@@ -27,7 +27,7 @@ ASSUMPTIONS = ['every sending stream is registered in EventsProcessor.streams (a
                '16384..2^24-1): otherwise h2 raises and grpclib closes the connection (model: `broken`)',
                'one send_data per stream at a time',
                'Connection.resume_writing flushes what h2 has queued: no DATA frame of a sender is queued then '
-               '(send_data writes each frame at once: C07_source_sends_flushed_at_once; the correspondence '
+               '(send_data writes each frame at once: C07_source_send_data_facts (b); the correspondence '
                'reports DATA frames arriving outside a run); frames of other code paths (reset_nowait RST) are '
                'not flow-controlled and outside this model; the connection is not closing']
 
@@ -393,7 +393,7 @@ def oracle(case, obs):
                     if got[i] != sent[i]:
                         bad.append(('sender %d completed but the peer has %d of %d bytes'
                                     % (i, len(got[i]), len(sent[i])), {'kind': 'loss'}))
-                elif p in 'UW?':
+                elif p in 'UWB?':
                     if not r['paused'] and min(led.sw[i], led.cw) > 0:
                         bad.append(('sender %d is blocked (%s) at quiescence although writing is resumed '
                                     'and it has credit (stream %d, connection %d)' % (i, p, led.sw[i], led.cw),
@@ -430,10 +430,20 @@ def oracle(case, obs):
 
 # ---- driver -------------------------------------------------------------------------------------
 
-def canon(recs):
-    return [(tuple(r['chunks']), r['pcs'], r['cw'], tuple(r['sws']), r['mf'], r['wr'], r['broken'],
-             r.get('outside', 0), r.get('paused'), r.get('hq'))
-            for r in recs]
+def canon(recs, like=None):
+    """records as comparable tuples; what the implementation side could not observe (`like` = its records:
+    pcs letter 'B', hq / wr None) is blanked on both sides"""
+    out = []
+    for k, r in enumerate(recs):
+        ref = like[k] if like is not None and k < len(like) else r
+        pcs = r['pcs']
+        if 'B' in ref['pcs']:
+            pcs = ''.join('B' if c in 'UWB' else c for c in pcs)
+        hq = None if ref.get('hq') is None else r.get('hq')
+        wr = None if ref.get('wr') is None else r.get('wr')
+        out.append((tuple(r['chunks']), pcs, r['cw'], tuple(r['sws']), r['mf'], wr, r['broken'],
+                    r.get('outside', 0), r.get('paused'), hq))
+    return out
 
 
 def check_cases(ctx, res, cases):
@@ -495,8 +505,8 @@ def check_cases(ctx, res, cases):
         if model is not None and not obs['setup_error']:
             res.traces += 1
             m = parse_model(model[j])
-            if canon(m) != canon(impl):
-                first = next((k for k, (a, b) in enumerate(zip(canon(m), canon(impl))) if a != b),
+            if canon(m, impl) != canon(impl, impl):
+                first = next((k for k, (a, b) in enumerate(zip(canon(m, impl), canon(impl, impl))) if a != b),
                              min(len(m), len(impl)))
                 res.disagreements.append({'case': case, 'model': m[first:first + 1],
                                           'impl': impl[first:first + 1], 'first_record': first})
